@@ -960,6 +960,50 @@ pub fn decorate_scanner(g: &mut Grammar, rng: &mut Rng) {
     }
 }
 
+/// Directly nested repetitions (a repetition inside the sequence of another repetition, inside an
+/// optional or a group of one), LL(1)-friendly: `S: { 'a' { Id [ 'c' ] } 'd' } ...`.
+pub fn gen_nested_rep_template(rng: &mut Rng, gtype: GType) -> Grammar {
+    let mut g = Grammar::new("S", gtype);
+    let mut letters = vec!["a", "b", "c", "d", "e", "f", "g", "h"];
+    rng.shuffle(&mut letters);
+    g.terms = letters.iter().take(7).map(|t| TermDef::raw(t)).collect();
+    let t = |i: usize| Factor::T(i, AstCtl::default());
+    let use_nt = rng.chance(1, 2);
+    let item = if use_nt { Factor::N("Id".into(), AstCtl::default()) } else { t(1) };
+    // inner repetition body: item, optionally followed by an optional terminal or a second terminal
+    let mut inner_seq = vec![item];
+    match rng.below(3) {
+        0 => inner_seq.push(Factor::Opt(vec![vec![t(2)]])),
+        1 => inner_seq.push(t(2)),
+        _ => {}
+    }
+    let inner = Factor::Rep(vec![inner_seq]);
+    let wrapped = match rng.below(4) {
+        0 => Factor::Grp(vec![vec![inner]]),
+        1 => Factor::Opt(vec![vec![t(5), inner]]),
+        _ => inner,
+    };
+    let mut outer_seq = vec![t(0), wrapped];
+    if rng.chance(3, 4) {
+        outer_seq.push(t(3));
+    }
+    if rng.chance(1, 3) {
+        // a second nested repetition in the same sequence
+        outer_seq.push(Factor::Rep(vec![vec![t(6)]]));
+        outer_seq.push(t(4));
+    }
+    let outer = Factor::Rep(vec![outer_seq]);
+    let mut s_alt = vec![outer];
+    if rng.chance(1, 2) {
+        s_alt.push(t(4));
+    }
+    g.rules.push(Rule { name: "S".into(), alts: vec![s_alt] });
+    if use_nt {
+        g.rules.push(Rule { name: "Id".into(), alts: vec![vec![t(1)]] });
+    }
+    g
+}
+
 /// AST-control attributes on non-terminal occurrences (clip, member name, user type). They have
 /// no influence on the language or the tables; transformations must treat a decorated occurrence
 /// like a plain one.
